@@ -310,7 +310,8 @@ func main() {
 		PropertyID: p.ID, Tier: *tier, Seed: seed, Level: "other", Coverage: cov,
 		Assumptions: p.Assumptions, WallS: time.Since(start).Seconds(), Violations: len(bad),
 	}
-	if *replay == "" {
+	noEvidence := os.Getenv("VERIF_NO_EVIDENCE") != "" // tool runs against scratch trees must not overwrite the evidence of /repo
+	if *replay == "" && !noEvidence {
 		if err := writeJSON(filepath.Join(vdir, "evidence", p.ID+".json"), ev); err != nil {
 			fmt.Fprintln(os.Stderr, "evidence:", err)
 			os.Exit(2)
@@ -318,6 +319,9 @@ func main() {
 	}
 	if len(bad) > 0 {
 		rp := filepath.Join(vdir, "evidence", p.ID+".violations.json")
+		if noEvidence {
+			rp = filepath.Join(os.TempDir(), p.ID+".violations.json")
+		}
 		if *replay == "" {
 			writeJSON(rp, map[string]any{"property": p.ID, "violations": bad, "replay_cmd": fmt.Sprintf("bin/rdpgwlint -property %s -replay %s", p.ID, rp)})
 		} else {
